@@ -103,10 +103,29 @@ def run_nndvi(p, script, seed=0):
             nn.build(ref_before, X)
             part = part_record(nn, scale)
             seen.pop("theta", None)
-            det.update(feeder.batch(to_det(s[1])))
+            # observe the distances the update computes (optional): the first is the batch's own, the following sampling_times are
+            # those of the random re-assignments the threshold is fitted to - however they were drawn
+            dists = []
+            orig_dist = NNSpacePartitioner.__dict__.get("compute_nnps_distance")
+            try:
+                fn = orig_dist.__func__ if isinstance(orig_dist, staticmethod) else orig_dist
+
+                def recording(*a, **kw):
+                    v = fn(*a, **kw)
+                    dists.append(float(v))
+                    return v
+                NNSpacePartitioner.compute_nnps_distance = staticmethod(recording)
+                det.update(feeder.batch(to_det(s[1])))
+            finally:
+                if orig_dist is not None:
+                    NNSpacePartitioner.compute_nnps_distance = orig_dist
+            fit = "NA"
+            if len(dists) == p["sampling_times"] + 1:
+                mu, sd = float(np.mean(dists[1:])), float(np.std(dists[1:]))
+                fit = num(scipy.stats.norm.ppf(1 - p["alpha"], mu, sd))
             lo, hi = theta_bracket(part, p["k_nn"], p["sampling_times"], p["alpha"], seed + t)
             e = {"op": "update", "data": s[1], "part": part, "ref": refrows(),
-                 "th": {"theta": num(seen["theta"]) if "theta" in seen else "NA", "lo": num(lo), "hi": num(hi)}}
+                 "th": {"theta": num(seen["theta"]) if "theta" in seen else "NA", "lo": num(lo), "hi": num(hi), "fit": fit}}
         e.update(counters())
         ev.append(e)
     return {"cfg": {"k": p["k_nn"]}, "ev": ev, "params": p, "script": [list(s) for s in script], "seed": seed}
